@@ -98,8 +98,8 @@ type vfC09Rec struct {
 }
 
 func vfC09Id(idx, off uint32) uint64 { return uint64(idx)<<32 | uint64(off) }
-func (r *vfC09Rec) Id() uint64      { return vfC09Id(r.Idx, r.Off) }
-func vfC09IdStr(id uint64) string   { return fmt.Sprintf("%d/%d", id>>32, id&0xffffffff) }
+func (r *vfC09Rec) Id() uint64       { return vfC09Id(r.Idx, r.Off) }
+func vfC09IdStr(id uint64) string    { return fmt.Sprintf("%d/%d", id>>32, id&0xffffffff) }
 
 func vfC09Decode(buf []byte) *vfC09Rec {
 	r := &vfC09Rec{}
@@ -203,15 +203,16 @@ func vfC09FileIndex(name string) uint32 {
 // ------------------------------------------------------------------ workload
 
 type vfC09Load struct {
-	conn    *vfBinConn
-	rng     *vfRand
-	nKeys   int
-	holders map[int]map[int]bool
-	nextLid int
-	sent    int
-	records int // SUCCED replies that produce a log record (approx.)
-	short   bool
-	part    *vfPart
+	conn     *vfBinConn
+	rng      *vfRand
+	nKeys    int
+	holders  map[int]map[int]bool
+	nextLid  int
+	sent     int
+	records  int // SUCCED replies that produce a log record (approx.)
+	short    bool
+	part     *vfPart
+	shortIds map[int]bool
 }
 
 func vfC09Key(k int) [16]byte { return vfKey16(fmt.Sprintf("c09-%04d", k)) }
@@ -268,12 +269,16 @@ func (w *vfC09Load) op() *protocol.LockCommand {
 			l.ExpriedFlag |= protocol.EXPRIED_FLAG_MINUTE_TIME
 			l.Expried = uint16(rng.Range(10, 50))
 		case y < 13 && w.short:
+			// short-lived: ends at the leader by expiry; never re-locked / released / given a value by the
+			// workload (a replay of its records at a later time must not differ from the original one)
 			l.Expried = uint16(rng.Range(1, 3))
+			l.Rcount = 0
+			w.shortIds[w.nextLid] = true
 		case y < 16:
 			l.ExpriedFlag |= protocol.EXPRIED_FLAG_UNLIMITED_EXPRIED_TIME
 		}
 	}
-	if rng.Chance(30) {
+	if rng.Chance(30) && !w.shortIds[vfLockIdIndex(l.LockId)] {
 		switch rng.Intn(7) {
 		case 0, 1:
 			l.Data = protocol.NewLockCommandDataSetString(fmt.Sprintf("v%d-%d", w.sent, rng.Intn(1000)))
@@ -334,7 +339,7 @@ func (w *vfC09Load) burst(n, batch int) error {
 					w.holders[key] = map[int]bool{}
 				}
 				if s.cmd.CommandType == protocol.COMMAND_LOCK {
-					if s.cmd.Expried > 0 {
+					if s.cmd.Expried > 0 && !w.shortIds[lid] {
 						w.holders[key][lid] = true
 					}
 				} else if r.LRCount == 0 {
@@ -368,14 +373,16 @@ type vfC09Follower struct {
 }
 
 type vfC09Scn struct {
-	c      *vfC09Ctx
-	rng    *vfRand
-	base   string
-	leader *vfC09nNode
-	fols   []*vfC09Follower
-	load   *vfC09Load
-	adm    *vfTextConn
-	rot    int
+	c          *vfC09Ctx
+	rng        *vfRand
+	base       string
+	leader     *vfC09nNode
+	fols       []*vfC09Follower
+	load       *vfC09Load
+	adm        *vfTextConn
+	rot        int
+	autoRotate bool
+	kind       string
 }
 
 // vfC09AlienDir fabricates the log directory of another history (file index 7).
@@ -435,6 +442,20 @@ func (s *vfC09Scn) startFollower(f *vfC09Follower) bool {
 	return true
 }
 
+func (s *vfC09Scn) cutsDone() int {
+	n := 0
+	for _, f := range s.fols {
+		f.px.mu.Lock()
+		for _, sy := range f.px.syncs {
+			if sy.CutDone {
+				n++
+			}
+		}
+		f.px.mu.Unlock()
+	}
+	return n
+}
+
 func (s *vfC09Scn) anyDisconnected() *vfC09Follower {
 	for _, f := range s.fols {
 		if !f.up {
@@ -463,25 +484,36 @@ func vfC09Case(env *vfEnv, part *vfPart, i int) {
 		defer os.RemoveAll(base)
 	}
 	s := &vfC09Scn{c: c, rng: rng, base: base}
+	// kind "exact": the leader's log stays complete (no rotation) and nothing expires, so a follower must equal
+	// the leader itself; "rotating": compaction runs, followers are judged against a clean replay of what they
+	// were sent; "expiring": short-lived holds expire while followers resynchronise (a replay at another time
+	// skips other records, so no state oracle - wire and file oracles only)
+	kind := []string{"exact", "exact", "rotating", "rotating", "expiring"}[rng.Intn(5)]
+	s.kind = kind
 	ring := uint(rng.PickInt([]int{1024, 2048, 4096}))
 	ringMax := uint(rng.PickInt([]int{int(ring), int(ring) * 2, 8192}))
 	rewrite := uint(rng.PickInt([]int{64 << 20, 64 << 20, 20000, 60000}))
+	if kind == "exact" {
+		rewrite = 64 << 20
+	}
 	lcfg := vfC09nCfg{Name: "leader", Ring: ring, RingMax: ringMax, RewriteSize: rewrite, DBConcurrent: uint(rng.Range(1, 3)), AofBuf: uint(rng.PickInt([]int{256, 1024, 4096}))}
 	var err error
+	s.autoRotate = rewrite < 1<<20
 	s.leader, err = vfC09nStart(base, lcfg)
 	if err != nil {
 		c.inconclusive("start leader: %v", err)
 		return
 	}
 	defer s.leader.Kill()
-	c.note("leader up: ring=%d max=%d rewrite=%d shards=%d aofbuf=%d", ring, ringMax, rewrite, lcfg.DBConcurrent, lcfg.AofBuf)
+	c.note("kind=%s leader up: ring=%d max=%d rewrite=%d shards=%d aofbuf=%d", kind, ring, ringMax, rewrite, lcfg.DBConcurrent, lcfg.AofBuf)
+	part.Add("scenarios_"+kind, 1)
 	wc, err := vfC09nDialBinary(s.leader.Addr(), "workload", 1)
 	if err != nil {
 		c.inconclusive("dial workload: %v", err)
 		return
 	}
 	defer wc.close()
-	s.load = &vfC09Load{conn: wc, rng: rng, nKeys: rng.Range(4, 24), holders: map[int]map[int]bool{}, short: true, part: part}
+	s.load = &vfC09Load{conn: wc, rng: rng, nKeys: rng.Range(4, 24), holders: map[int]map[int]bool{}, short: kind == "expiring", part: part, shortIds: map[int]bool{}}
 	defer func() {
 		if s.adm != nil {
 			s.adm.close()
@@ -520,7 +552,7 @@ func vfC09Case(env *vfEnv, part *vfPart, i int) {
 	if !run(pre, rng.Range(1, 100)) {
 		return
 	}
-	if pre > 0 && rng.Chance(35) {
+	if pre > 0 && rng.Chance(35) && kind != "exact" {
 		s.rotate()
 	}
 	// ---- followers
@@ -540,23 +572,24 @@ func vfC09Case(env *vfEnv, part *vfPart, i int) {
 			vfC09AlienDir(filepath.Join(base, f.name), rng)
 		}
 		f.stallable = rng.Chance(35)
-		for q := rng.Range(1, 3); q > 0; q-- {
+		for q := rng.Range(2, 4); q > 0; q-- {
 			ft := vfC09nFault{CutAfter: -1}
 			if f.stallable {
 				ft.RcvBuf = 2048
 			}
-			switch rng.Intn(6) {
-			case 0:
-				ft.CutAfter, ft.CutPhase = int64(rng.Range(0, 64*(pre+40))), 1
+			x := rng.Intn(100)
+			switch {
+			case x < 25:
+				ft.CutAfter, ft.CutPhase = int64(rng.PickInt([]int{rng.Range(0, 700), rng.Range(0, 4000), rng.Range(0, 40000)})), 1
 				f.faults = append(f.faults, fmt.Sprintf("cut-transfer@%d", ft.CutAfter))
-			case 1, 2:
-				ft.CutAfter, ft.CutPhase = int64(rng.Range(0, 64*400)), 2
+			case x < 65:
+				ft.CutAfter, ft.CutPhase = int64(rng.PickInt([]int{rng.Range(0, 700), rng.Range(0, 3000), rng.Range(0, 64*150)})), 2
 				f.faults = append(f.faults, fmt.Sprintf("cut-live@%d", ft.CutAfter))
-			case 3:
+			case x < 80:
 				ft.Delay, ft.ChunkMax = time.Duration(rng.Range(200, 3000))*time.Microsecond, rng.Range(40, 700)
-				ft.CutAfter, ft.CutPhase = int64(rng.Range(64*20, 64*600)), 2
+				ft.CutAfter, ft.CutPhase = int64(rng.Range(64*5, 64*120)), 2
 				f.faults = append(f.faults, fmt.Sprintf("slow(%v/%dB)+cut-live@%d", ft.Delay, ft.ChunkMax, ft.CutAfter))
-			case 4:
+			case x < 90:
 				ft.Delay, ft.ChunkMax = time.Duration(rng.Range(100, 1500))*time.Microsecond, rng.Range(40, 700)
 				f.faults = append(f.faults, fmt.Sprintf("slow(%v/%dB)", ft.Delay, ft.ChunkMax))
 			default:
@@ -600,9 +633,92 @@ func vfC09Case(env *vfEnv, part *vfPart, i int) {
 			}
 			part.Add("follower_restarts_with_old_directory", 1)
 		}
-		heavy := rng.Chance(55)
+		if f := s.anyDisconnected(); f != nil && rng.Chance(65) {
+			// a follower is in its reconnect back-off: keep the leader (almost) quiet until it is back,
+			// so that its position is still in the ring and it can resume
+			have := 0
+			for _, sy := range f.px.Syncs() {
+				if sy.StartId != "" {
+					have++
+				}
+			}
+			q := rng.Range(0, int(ring)/64/3)
+			c.note("phase %d: quiet (%d requests) until %s has reconnected", p, q, f.name)
+			if !run(q, 1) {
+				return
+			}
+			if f.px.WaitSyncs(have+1, 9*time.Second) {
+				part.Add("reconnects_awaited", 1)
+			}
+		}
+		if rng.Chance(45) && s.anyDisconnected() == nil {
+			// resume episode: cut an established stream at whatever byte it has reached, keep the leader
+			// (almost) quiet during the follower's back-off: its position is still in the ring when it returns
+			var cand []*vfC09Follower
+			for _, f := range s.fols {
+				if f.up {
+					cand = append(cand, f)
+				}
+			}
+			if len(cand) > 0 {
+				f := cand[rng.Intn(len(cand))]
+				if !run(rng.Range(3, 30), rng.Range(1, 3)) {
+					return
+				}
+				have := 0
+				for _, sy := range f.px.Syncs() {
+					if sy.StartId != "" {
+						have++
+					}
+				}
+				f.px.CutAll()
+				q := rng.Range(0, int(ring)/64/2)
+				c.note("phase %d: controller cut the stream to %s; quiet (%d requests) until it has reconnected", p, f.name, q)
+				part.Add("controller_cuts", 1)
+				if !run(q, 1) {
+					return
+				}
+				if f.px.WaitSyncs(have+1, 9*time.Second) {
+					part.Add("reconnects_awaited", 1)
+				}
+			}
+		}
+		mode := rng.Intn(100)
+		heavy := mode < 35
 		var stalled *vfC09Follower
-		if heavy {
+		if !heavy && mode < 80 {
+			// steady: request / reply in lock step, the senders keep up with the ring, the live stream flows
+			n := rng.Range(60, 350)
+			c.note("phase %d: steady run of %d", p, n)
+			cutsSeen := s.cutsDone()
+			for n > 0 {
+				k := rng.Range(2, 5)
+				if !run(k, rng.Range(1, 2)) {
+					return
+				}
+				n -= k
+				if cd := s.cutsDone(); cd > cutsSeen {
+					cutsSeen = cd
+					if f := s.anyDisconnected(); f != nil && rng.Chance(75) {
+						// a cut just happened: go quiet so that the follower's position stays in the ring
+						have := 0
+						for _, sy := range f.px.Syncs() {
+							if sy.StartId != "" {
+								have++
+							}
+						}
+						q := rng.Range(0, int(ring)/64/3)
+						c.note("phase %d: cut seen, quiet (%d requests) until %s has reconnected", p, q, f.name)
+						if !run(q, 1) {
+							return
+						}
+						if f.px.WaitSyncs(have+1, 9*time.Second) {
+							part.Add("reconnects_awaited", 1)
+						}
+					}
+				}
+			}
+		} else if heavy {
 			for _, f := range s.fols {
 				if f.up && f.stallable && rng.Chance(50) {
 					stalled = f
@@ -648,7 +764,7 @@ func vfC09Case(env *vfEnv, part *vfPart, i int) {
 				}
 			}
 		}
-		if rng.Chance(30) {
+		if rng.Chance(30) && kind != "exact" {
 			s.rotate()
 		}
 		if p == killAt && s.fols[0].up {
@@ -695,7 +811,7 @@ func vfC09Case(env *vfEnv, part *vfPart, i int) {
 
 func (s *vfC09Scn) waitQuiescence() bool {
 	c := s.c
-	deadline := time.Now().Add(150 * time.Second)
+	deadline := time.Now().Add(100 * time.Second)
 	// short-lived holds of the workload end at the leader by themselves
 	for {
 		sn, err := s.leader.Snapshot()
@@ -755,6 +871,22 @@ func (s *vfC09Scn) waitQuiescence() bool {
 			if li2 != nil && li2.AofId == li.AofId && !li2.Rewriting {
 				c.note("quiescent at %d/%d (%s)", li.AofIndex, li.AofOffset, li.AofId)
 				return true
+			}
+		}
+		// a follower whose every attempt to resynchronise fails in the same way (its own error report,
+		// twice or more, on a directory nothing else touches) will never converge
+		for _, f := range s.fols {
+			if b, err := os.ReadFile(filepath.Join(s.base, f.name+".log")); err == nil {
+				if n := strings.Count(string(b), "init sync error"); n >= 2 && strings.Count(string(b), "append.aof file index error") >= 2 {
+					ents, _ := os.ReadDir(f.node.Dir)
+					names := []string{}
+					for _, e := range ents {
+						names = append(names, e.Name())
+					}
+					c.part.Add("followers_wedged_index_error", 1)
+					c.violate("follower-wedged", "follower-cannot-resync:append.aof-file-index-error(sparse-append-files-after-transfer-of-compacted-log)", "%s can never resynchronise: every attempt fails in Aof.Reset -> FindAofFiles with \"append.aof file index error\" (%d times so far); its directory holds %v: the file transfer stored the records of the leader's rewrite.aof in append files of their original index, which leaves a gap in the append file indexes", f.name, n, names)
+					return false
+				}
 			}
 		}
 		if time.Now().After(deadline) {
@@ -912,10 +1044,32 @@ func (s *vfC09Scn) judge() {
 		}
 	}
 	part.Add("leader_records_with_value", int64(nVal))
+	compacted := s.rot > 0 || s.autoRotate
+	for _, idx := range truth.idxs {
+		if idx > 1 {
+			compacted = true
+		}
+	}
 	for _, f := range s.fols {
 		s.judgeWire(f, truth)
 		s.judgeFiles(f, truth)
-		s.judgeSnapshot(f, ls, fsn[f.name])
+		if c.viol > 0 {
+			continue
+		}
+		if s.kind == "expiring" {
+			continue
+		}
+		// S1: the follower against a clean application of exactly the records it was sent
+		if exp := s.expectedState(f); exp != nil {
+			s.judgeSnapshot(f, exp, fsn[f.name], false, "a clean replay of the records it was sent")
+			part.Add("snapshots_vs_clean_replay", 1)
+		}
+		// S2: the follower against the leader itself; sound only while the leader's log is complete and
+		// time-independent (a compacted log does not reproduce depths / values exactly: C16's subject)
+		if s.kind == "exact" && !compacted && c.viol == 0 {
+			s.judgeSnapshot(f, ls, fsn[f.name], true, "the leader")
+			part.Add("snapshots_vs_leader", 1)
+		}
 	}
 	// leader log evidence: ring overflow that hit a connected follower
 	if b, err := os.ReadFile(filepath.Join(s.base, "leader.log")); err == nil {
@@ -1068,6 +1222,21 @@ func (s *vfC09Scn) judgeFiles(f *vfC09Follower, t *vfC09Truth) {
 			lastOfIdx[wr.Idx] = id
 		}
 	}
+	// file indexes of which this follower received records by file transfer
+	transferIdx := map[uint32]bool{}
+	for _, sy := range f.px.Syncs() {
+		for _, wr := range sy.Records {
+			if wr.Phase == 1 {
+				transferIdx[wr.Idx] = true
+			}
+		}
+	}
+	fsig := func(idx uint32, sig string) string {
+		if transferIdx[idx] {
+			return sig + "(file-received-transfer-records)"
+		}
+		return sig
+	}
 	kept := vfC09KeptFiles(f.node.Keep)
 	names := make([]string, 0, len(kept))
 	for n := range kept {
@@ -1106,16 +1275,16 @@ func (s *vfC09Scn) judgeFiles(f *vfC09Follower, t *vfC09Truth) {
 				if !bytes.Equal(tr.Data, r.Data) {
 					sig = "follower-file-value-differs"
 				}
-				c.violate("file-record", sig, "%s file %s record #%d differs from the record sent under that id\n  file: %s\n  sent: %s", f.name, name, k, vfC09Show(r), vfC09Show(tr))
+				c.violate("file-record", fsig(fidx, sig), "%s file %s record #%d differs from the record sent under that id\n  file: %s\n  sent: %s", f.name, name, k, vfC09Show(r), vfC09Show(tr))
 				break
 			}
 			if prev != nil {
 				if r.Off <= prev.Off {
-					c.violate("file-order", "follower-file-duplicate-or-reorder", "%s file %s: record %s is followed by %s (applied twice / out of order)", f.name, name, vfC09IdStr(prev.Id()), vfC09IdStr(r.Id()))
+					c.violate("file-order", fsig(fidx, "follower-file-duplicate-or-reorder"), "%s file %s: record %s is followed by %s (applied twice / out of order)", f.name, name, vfC09IdStr(prev.Id()), vfC09IdStr(r.Id()))
 					break
 				}
 				if r.Off != prev.Off+1 && !adj[[2]uint64{prev.Id(), r.Id()}] {
-					c.violate("file-gap", "follower-file-gap", "%s file %s: record %s is followed by %s; the records between them exist in the leader's log and the two never were neighbours on the wire (skipped)", f.name, name, vfC09IdStr(prev.Id()), vfC09IdStr(r.Id()))
+					c.violate("file-gap", fsig(fidx, "follower-file-gap"), "%s file %s: record %s is followed by %s; the records between them exist in the leader's log and the two never were neighbours on the wire (skipped)", f.name, name, vfC09IdStr(prev.Id()), vfC09IdStr(r.Id()))
 					break
 				}
 				part.Add("follower_file_neighbours_verified", 1)
@@ -1123,6 +1292,60 @@ func (s *vfC09Scn) judgeFiles(f *vfC09Follower, t *vfC09Truth) {
 			prev = r
 		}
 	}
+}
+
+// expectedState: a fresh node recovers from a log fabricated out of exactly the
+// records that reached the follower (complete ones, in order) since the last
+// time it was reset by a full resynchronisation; its snapshot is what "applied
+// each record once, in order" means at state level.
+func (s *vfC09Scn) expectedState(f *vfC09Follower) *vfC09nSnapshot {
+	c := s.c
+	syncs := f.px.Syncs()
+	first := -1
+	for k, sy := range syncs {
+		if sy.StartId != "" && sy.FullSync {
+			first = k
+		}
+	}
+	if first < 0 {
+		return nil
+	}
+	name := f.name + "-expect"
+	dir := filepath.Join(s.base, name)
+	_ = os.MkdirAll(dir, 0755)
+	var rec, dat bytes.Buffer
+	rec.WriteString("SLOCKAOF")
+	rec.Write([]byte{1, 0, 0, 0})
+	n := 0
+	for _, sy := range syncs[first:] {
+		for _, wr := range sy.Records {
+			b := wr.Buf
+			b[0], b[1] = 62, 0
+			rec.Write(b[:])
+			if wr.Data != nil {
+				dat.Write(wr.Data)
+			}
+			n++
+		}
+	}
+	if err := os.WriteFile(filepath.Join(dir, "append.aof.1"), rec.Bytes(), 0644); err != nil {
+		c.inconclusive("write expected log: %v", err)
+		return nil
+	}
+	_ = os.WriteFile(filepath.Join(dir, "append.aof.1.dat"), dat.Bytes(), 0644)
+	node, err := vfC09nStart(s.base, vfC09nCfg{Name: name, DBConcurrent: f.cfg.DBConcurrent})
+	if err != nil {
+		c.inconclusive("start reference node: %v", err)
+		return nil
+	}
+	defer node.Kill()
+	sn, err := node.Snapshot()
+	if err != nil {
+		c.inconclusive("reference snapshot: %v", err)
+		return nil
+	}
+	c.note("%s: reference state from %d records (connections #%d..#%d): %d keys", f.name, n, first, len(syncs)-1, len(sn.Keys))
+	return sn
 }
 
 func vfC09Tol(eflag uint16) int64 {
@@ -1133,7 +1356,7 @@ func vfC09Tol(eflag uint16) int64 {
 }
 
 // judgeSnapshot: oracle S.
-func (s *vfC09Scn) judgeSnapshot(f *vfC09Follower, ls, fs *vfC09nSnapshot) {
+func (s *vfC09Scn) judgeSnapshot(f *vfC09Follower, ls, fs *vfC09nSnapshot, onlyAof bool, refName string) {
 	c, part := s.c, s.c.part
 	for _, e := range fs.Errors {
 		c.note("%s census: %s", f.name, e)
@@ -1160,7 +1383,7 @@ func (s *vfC09Scn) judgeSnapshot(f *vfC09Follower, ls, fs *vfC09nSnapshot) {
 		}
 		return m
 	}
-	lm, fm := render(ls, true), render(fs, false)
+	lm, fm := render(ls, onlyAof), render(fs, false)
 	show := func(k *vfC09nKey) string {
 		if k == nil {
 			return "<no holds>"
@@ -1185,9 +1408,9 @@ func (s *vfC09Scn) judgeSnapshot(f *vfC09Follower, ls, fs *vfC09nSnapshot) {
 		diff := ""
 		switch {
 		case l == nil:
-			diff = "the follower has holds on a key the leader's persisted state does not have"
+			diff = "the follower has holds on a key the reference does not have"
 		case fo == nil:
-			diff = "the follower has no hold on a key that is held in the leader's persisted state"
+			diff = "the follower has no hold on a key that is held in the reference"
 		case len(l.Holds) != len(fo.Holds):
 			diff = "different number of holds"
 		case l.Data != fo.Data:
@@ -1204,7 +1427,8 @@ func (s *vfC09Scn) judgeSnapshot(f *vfC09Follower, ls, fs *vfC09nSnapshot) {
 				if d < 0 {
 					d = -d
 				}
-				if d > vfC09Tol(a.EFlag) {
+				// one expiry unit, plus what the nodes' own clocks were observed to lag behind real time (starved machine)
+				if d > vfC09Tol(a.EFlag)+2*(ls.ClockLag+fs.ClockLag) {
 					diff = fmt.Sprintf("deadlines differ by %d s", d)
 					break
 				}
@@ -1219,13 +1443,14 @@ func (s *vfC09Scn) judgeSnapshot(f *vfC09Follower, ls, fs *vfC09nSnapshot) {
 				} else if strings.Contains(diff, "deadline") {
 					sig = "snapshot-deadline-differs"
 				}
-				c.violate("snapshot", sig, "at quiescence %s differs from the leader on db%d key %s: %s\n  leader:   %s\n  follower: %s", f.name, k.db, k.key, diff, show(l), show(fo))
+				c.violate("snapshot", sig, "at quiescence %s differs from %s on db%d key %s: %s\n  reference: %s\n  follower:  %s", f.name, refName, k.db, k.key, diff, show(l), show(fo))
 			}
 		}
 	}
 	if bad == 0 {
 		part.Add("snapshots_equal", 1)
 	}
+	part.Max("max_clock_lag_seconds", ls.ClockLag+fs.ClockLag)
 }
 
 // ------------------------------------------------------------------ entry
@@ -1245,7 +1470,7 @@ func TestVerif_C09(t *testing.T) {
 		part.Harness = append(part.Harness, fmt.Sprintf("%d of %d scenarios were inconclusive", part.Counters["inconclusive_cases"], n))
 	}
 	spec := &vfSpec{Prop: "C09", Level: "fault_enumeration", NontrivSet: "nontrivial",
-		Rule:        "case i = cluster scenario splitmix(seed,'C09',i): leader (ring 1-4 KiB, max <= 8 KiB, rewrite size huge or 20-60 KB, 1-3 shards) + 1-2 followers behind a frame-aware proxy; PRNG workload at the leader with the persist-immediately flag in 3-5 phases (heavy bursts of 150-5000 pipelined requests / trickles), value operations incl. >4 KiB values, BGREWRITEAOF; followers join before / between phases with an empty or alien directory, one may be killed (at a flushed moment) and restarted with its old directory; per follower 1-3 faults on successive replication connections (cut at a PRNG byte offset of the file transfer / of the live stream, throttle, throttle+cut) and stalls of the stream during a heavy burst; oracles at quiescence (wire vs the leader's preserved files, follower files vs wire, snapshots); non-trivial = scenario reached quiescence and was judged; distinct = hash(records, files, case)",
+		Rule: "case i = cluster scenario splitmix(seed,'C09',i): leader (ring 1-4 KiB, max <= 8 KiB, rewrite size huge or 20-60 KB, 1-3 shards) + 1-2 followers behind a frame-aware proxy; PRNG workload at the leader with the persist-immediately flag in 3-5 phases (heavy bursts of 150-5000 pipelined requests / trickles), value operations incl. >4 KiB values, BGREWRITEAOF; followers join before / between phases with an empty or alien directory, one may be killed (at a flushed moment) and restarted with its old directory; per follower 1-3 faults on successive replication connections (cut at a PRNG byte offset of the file transfer / of the live stream, throttle, throttle+cut) and stalls of the stream during a heavy burst; oracles at quiescence (wire vs the leader's preserved files, follower files vs wire, snapshots); non-trivial = scenario reached quiescence and was judged; distinct = hash(records, files, case)",
 		Assumptions: []string{
 			"node processes on loopback TCP; all waits are on events (replies, proxy connection events, log positions) with watchdogs (60-150 s); a watchdog firing makes the scenario inconclusive",
 			"reference = the leader's own append files, hard-linked at VP_REWRITE_FILE_CLOSED (existing hook) and at the end; a reference with holes makes the scenario inconclusive",
@@ -1253,6 +1478,6 @@ func TestVerif_C09(t *testing.T) {
 			"records are compared from byte 2 on, the REWRITED flag ignored; deadlines within 2 s (61 s with the minute flag)",
 			"follower files that the follower's own compaction removed before they were hard-linked are not checked at file level (the wire and snapshot oracles still apply)",
 		},
-		Floors: []string{"scenarios_judged", "full_transfers", "resumes", "positions_not_found_full_resync", "cuts_injected_phase1", "cuts_injected_phase2", "cuts_inside_a_record", "wire_records_with_value", "rotations_requested", "follower_file_neighbours_verified", "snapshots_equal", "live_starts_verified", "follower_restarts_with_old_directory"}}
+		Floors: []string{"scenarios_judged", "full_transfers", "resumes", "positions_not_found_full_resync", "cuts_injected_phase1", "cuts_injected_phase2", "cuts_inside_a_record", "wire_records_with_value", "rotations_requested", "follower_file_neighbours_verified", "snapshots_equal", "snapshots_vs_leader", "snapshots_vs_clean_replay", "live_starts_verified", "follower_restarts_with_old_directory"}}
 	vfFinish(t, env, spec, part, start)
 }
